@@ -42,6 +42,7 @@ fn main() {
         "C09" => sweep_cmd(Prop::C09, &["core", "capback", "look", "utf8", "lit", "onechar"]),
         "C13" => sweep_cmd(Prop::C13, &["core", "look", "nest", "icase", "lit", "onechar", "mods", "utf8"]),
         "C10" => simple_cmd("C10", mc::c10::c10),
+        "C11" => simple_cmd("C11", mc::c11::c11),
         "C16" => simple_cmd("C16", mc::apichecks::c16),
         "C17" => simple_cmd("C17", mc::apichecks::c17),
         "C18" => simple_cmd("C18", mc::apichecks::c18),
